@@ -184,10 +184,16 @@ def rule_R3(P, rep):
                "ABTI_ythread_schedule"):
         want[cb] = 1
     seen = set()
-    for F in sorted(P.functions.values(), key=lambda f: (f.file, f.line)):
+    for F0 in sorted(P.functions.values(), key=lambda f: (f.file, f.line)):
+        # the post-switch callbacks are judged by what they do, also when they delegate to a helper of their file
+        F = P.flat(F0) if F0.file == "src/ythread.c" else F0
         for bid, nid in F.calls("ABTI_thread_handle_request"):
             v = _const_of(F, F.nodes[nid]["a"][1])
             seen.add(F.name)
+            if F.name not in want and F.file == "src/ythread.c" and F.name not in C02.SUSPEND_CBS:
+                # another yield-family callback of ythread.c (e.g. a forwarder to the yield implementation): a
+                # scheduling point at which cancellation is honoured
+                want[F.name] = 1
             if F.name not in want:
                 rep.ob("R3", "%s handles requests (allow_termination=%s)" % (F.name, v), False,
                        "request handling outside the known scheduling/yield/suspend points", loc=F.loc(nid),
